@@ -865,4 +865,266 @@ theorem optStep_ok {ps ps' : List EProd} (hs : SingleAlts ps) (h : optStep ps = 
         have := optStep_ok_case2 L X (generateName_not_mem hX)
         simpa only [Loc.withAlt, hapre, List.nil_append] using this
 
+/-! ## `extract_options` -/
+
+/-- name bookkeeping of an extraction: `vOld` are the names before, `vNew` after -/
+def ExNames (X : Name) (inner : Alts) (vOld vNew : List Name) : Prop :=
+  (∀ z ∈ altsVars inner, z ∈ vOld) ∧ (∀ z ∈ vNew, z = X ∨ z ∈ vOld) ∧
+    (∀ z ∈ vOld, z ∈ vNew ∨ z ∈ altsVars inner) ∧ X ∈ vNew
+
+mutual
+theorem exFactor_spec (X : Name) : ∀ (f f' : Factor) (inner : Alts),
+    exFactor X f = some (f', inner) → X ∉ f.vars →
+      f'.subst X [.opt inner] = [f] ∧ ExNames X inner f.vars f'.vars
+  | .t _, _, _, h, _ => by simp [exFactor] at h
+  | .n _ _, _, _, h, _ => by simp [exFactor] at h
+  | .opt as, f', inner, h, _ => by
+    simp only [exFactor, Option.some.injEq, Prod.mk.injEq] at h
+    obtain ⟨rfl, rfl⟩ := h
+    refine ⟨by simp [Factor.subst], ?_⟩
+    simp only [ExNames, Factor.vars, List.mem_singleton]
+    exact ⟨fun z h => h, fun z h => .inl h, fun z h => .inr h, trivial⟩
+  | .group as, f', inner, h, hx => by
+    simp only [exFactor] at h
+    split at h
+    · rename_i as' inner' hrec
+      simp only [Option.some.injEq, Prod.mk.injEq] at h
+      obtain ⟨rfl, rfl⟩ := h
+      obtain ⟨h1, h2⟩ := exAlts_spec X as as' inner' hrec (by simpa [Factor.vars] using hx)
+      exact ⟨by simp [Factor.subst, h1], by simpa [Factor.vars] using h2⟩
+    · cases h
+  | .rep as, f', inner, h, hx => by
+    simp only [exFactor] at h
+    split at h
+    · rename_i as' inner' hrec
+      simp only [Option.some.injEq, Prod.mk.injEq] at h
+      obtain ⟨rfl, rfl⟩ := h
+      obtain ⟨h1, h2⟩ := exAlts_spec X as as' inner' hrec (by simpa [Factor.vars] using hx)
+      exact ⟨by simp [Factor.subst, h1], by simpa [Factor.vars] using h2⟩
+    · cases h
+theorem exAlt_spec (X : Name) : ∀ (fs fs' : List Factor) (inner : Alts),
+    exAlt X fs = some (fs', inner) → X ∉ altVars fs →
+      substAlt X [.opt inner] fs' = fs ∧ ExNames X inner (altVars fs) (altVars fs')
+  | [], _, _, h, _ => by simp [exAlt] at h
+  | f :: fs, fs', inner, h, hx => by
+    simp only [altVars, List.mem_append, not_or] at hx
+    simp only [exAlt] at h
+    split at h
+    · rename_i f' inner' hrec
+      simp only [Option.some.injEq, Prod.mk.injEq] at h
+      obtain ⟨rfl, rfl⟩ := h
+      obtain ⟨h1, h2, h3, h4, h5⟩ := exFactor_spec X f f' inner' hrec hx.1
+      refine ⟨by simp [substAlt, h1, substAlt_fresh X _ fs hx.2], ?_⟩
+      simp only [ExNames, altVars, List.mem_append]
+      refine ⟨fun z hz => .inl (h2 z hz), ?_, ?_, .inl h5⟩
+      · rintro z (hz | hz)
+        · rcases h3 z hz with h | h
+          · exact .inl h
+          · exact .inr (.inl h)
+        · exact .inr (.inr hz)
+      · rintro z (hz | hz)
+        · rcases h4 z hz with h | h
+          · exact .inl (.inl h)
+          · exact .inr h
+        · exact .inl (.inr hz)
+    · split at h
+      · rename_i hnone fs'' inner' hrec
+        simp only [Option.some.injEq, Prod.mk.injEq] at h
+        obtain ⟨rfl, rfl⟩ := h
+        obtain ⟨h1, h2, h3, h4, h5⟩ := exAlt_spec X fs fs'' inner' hrec hx.2
+        refine ⟨by simp [substAlt, h1, Factor.subst_fresh X _ f hx.1], ?_⟩
+        simp only [ExNames, altVars, List.mem_append]
+        refine ⟨fun z hz => .inr (h2 z hz), ?_, ?_, .inr h5⟩
+        · rintro z (hz | hz)
+          · exact .inr (.inl hz)
+          · rcases h3 z hz with h | h
+            · exact .inl h
+            · exact .inr (.inr h)
+        · rintro z (hz | hz)
+          · exact .inl (.inl hz)
+          · rcases h4 z hz with h | h
+            · exact .inl (.inr h)
+            · exact .inr h
+      · cases h
+theorem exAlts_spec (X : Name) : ∀ (as as' : Alts) (inner : Alts),
+    exAlts X as = some (as', inner) → X ∉ altsVars as →
+      substAlts X [.opt inner] as' = as ∧ ExNames X inner (altsVars as) (altsVars as')
+  | [], _, _, h, _ => by simp [exAlts] at h
+  | a :: as, as', inner, h, hx => by
+    simp only [altsVars, List.mem_append, not_or] at hx
+    simp only [exAlts] at h
+    split at h
+    · rename_i a' inner' hrec
+      simp only [Option.some.injEq, Prod.mk.injEq] at h
+      obtain ⟨rfl, rfl⟩ := h
+      obtain ⟨h1, h2, h3, h4, h5⟩ := exAlt_spec X a a' inner' hrec hx.1
+      refine ⟨by simp [substAlts, h1, substAlts_fresh X _ as hx.2], ?_⟩
+      simp only [ExNames, altsVars, List.mem_append]
+      refine ⟨fun z hz => .inl (h2 z hz), ?_, ?_, .inl h5⟩
+      · rintro z (hz | hz)
+        · rcases h3 z hz with h | h
+          · exact .inl h
+          · exact .inr (.inl h)
+        · exact .inr (.inr hz)
+      · rintro z (hz | hz)
+        · rcases h4 z hz with h | h
+          · exact .inl (.inl h)
+          · exact .inr h
+        · exact .inl (.inr hz)
+    · split at h
+      · rename_i hnone as'' inner' hrec
+        simp only [Option.some.injEq, Prod.mk.injEq] at h
+        obtain ⟨rfl, rfl⟩ := h
+        obtain ⟨h1, h2, h3, h4, h5⟩ := exAlts_spec X as as'' inner' hrec hx.2
+        refine ⟨by simp [substAlts, h1, substAlt_fresh X _ a hx.1], ?_⟩
+        simp only [ExNames, altsVars, List.mem_append]
+        refine ⟨fun z hz => .inr (h2 z hz), ?_, ?_, .inr h5⟩
+        · rintro z (hz | hz)
+          · exact .inr (.inl hz)
+          · rcases h3 z hz with h | h
+            · exact .inl h
+            · exact .inr (.inr h)
+        · rintro z (hz | hz)
+          · exact .inl (.inl hz)
+          · rcases h4 z hz with h | h
+            · exact .inl (.inr h)
+            · exact .inr h
+      · cases h
+end
+
+theorem exEAlts_spec (X : Name) : ∀ (alts alts' : List EAlt) (inner : Alts),
+    exEAlts X alts = some (alts', inner) →
+      ∃ apre a apost fs', alts = apre ++ a :: apost ∧ alts' = apre ++ ⟨fs', a.attr⟩ :: apost ∧
+        exAlt X a.fs = some (fs', inner)
+  | [], _, _, h => by simp [exEAlts] at h
+  | a :: as, alts', inner, h => by
+    simp only [exEAlts] at h
+    split at h
+    · rename_i fs' inner' hrec
+      simp only [Option.some.injEq, Prod.mk.injEq] at h
+      obtain ⟨rfl, rfl⟩ := h
+      exact ⟨[], a, as, fs', rfl, rfl, hrec⟩
+    · split at h
+      · rename_i hnone as' inner' hrec
+        simp only [Option.some.injEq, Prod.mk.injEq] at h
+        obtain ⟨rfl, rfl⟩ := h
+        obtain ⟨apre, a0, apost, fs', e1, e2, e3⟩ := exEAlts_spec X as as' inner' hrec
+        exact ⟨a :: apre, a0, apost, fs', by simp [e1], by simp [e2], e3⟩
+      · cases h
+
+theorem extractInProds_spec (excl : List Name) : ∀ (ps ps' : List EProd),
+    extractInProds excl ps = .changed ps' →
+      ∃ pre p post X alts' inner, ps = pre ++ p :: post ∧
+        generateName excl (optPreferred p.lhs) = some X ∧
+        exEAlts X p.alts = some (alts', inner) ∧
+        ps' = pre ++ [⟨p.lhs, alts'⟩, ⟨X, [⟨[.group inner], .optSome⟩]⟩,
+          ⟨X, [⟨[], .optNone⟩]⟩] ++ post
+  | [], _, h => by simp [extractInProds] at h
+  | p :: ps, ps', h => by
+    simp only [extractInProds] at h
+    split at h
+    · cases h
+    · rename_i X hX
+      split at h
+      · rename_i alts' inner hex
+        injection h with h
+        subst h
+        exact ⟨[], p, ps, X, alts', inner, rfl, hX, hex, rfl⟩
+      · split at h
+        · rename_i ps'' hrec
+          injection h with h
+          subst h
+          obtain ⟨pre, p0, post, X0, alts', inner, e1, e2, e3, e4⟩ :=
+            extractInProds_spec excl ps ps'' hrec
+          exact ⟨p :: pre, p0, post, X0, alts', inner, by simp [e1], e2, e3, by simp [e4]⟩
+        · rename_i r hne
+          cases r <;> simp_all
+
+theorem extractStep_ok {ps ps' : List EProd} (h : extractStep ps = .changed ps') :
+    StepOK ps ps' := by
+  unfold extractStep at h
+  obtain ⟨pre, p, post, X, alts', inner, rfl, hX, hex, rfl⟩ := extractInProds_spec _ _ _ h
+  obtain ⟨apre, a, apost, fs', hp, rfl, hexa⟩ := exEAlts_spec _ _ _ _ hex
+  have hfresh := generateName_not_mem hX
+  obtain ⟨plhs, palts⟩ := p
+  simp only at hp hX
+  subst hp
+  have hmem : (⟨plhs, apre ++ a :: apost⟩ : EProd) ∈ pre ++ ⟨plhs, apre ++ a :: apost⟩ :: post :=
+    mem_mid
+  have hXa : X ∉ altVars a.fs := fun hx =>
+    hfresh (altVars_sub_variableNames hmem (alt := a) (by simp) X hx)
+  have hXl : X ≠ plhs := fun e => hfresh (e ▸ lhs_mem_variableNames hmem)
+  obtain ⟨hsub, hn1, hn2, hn3, hn4⟩ := exAlt_spec X a.fs fs' inner hexa hXa
+  have hXin : X ∉ altsVars inner := fun hx => hXa (hn1 X hx)
+  refine ⟨fun fs w hfs => ?_, ?_, ?_⟩
+  · apply step_equivX X [.opt inner] _ _ _ _ hfresh
+    · -- old alternatives are derivable in the new grammar
+      intro alt ha u hu
+      have hp1 : (⟨plhs, apre ++ ⟨fs', a.attr⟩ :: apost⟩ : EProd) ∈
+          pre ++ [⟨plhs, apre ++ ⟨fs', a.attr⟩ :: apost⟩, ⟨X, [⟨[.group inner], .optSome⟩]⟩,
+            ⟨X, [⟨[], .optNone⟩]⟩] ++ post := by simp
+      simp only [List.mem_append, List.mem_cons] at ha
+      rcases ha with ha | rfl | ha
+      · exact ⟨_, hp1, rfl, alt, by simp [ha], hu⟩
+      · refine ⟨_, hp1, rfl, ⟨fs', alt.attr⟩, by simp, ?_⟩
+        apply substAlt_unsubst X [.opt inner] _ fs' u (by rw [hsub]; exact hu)
+        intro w hw
+        rcases yieldE_opt_inv hw with rfl | ⟨alt', ha', hw'⟩
+        · exact ⟨⟨X, [⟨[], .optNone⟩]⟩, by simp, rfl, ⟨[], .optNone⟩, by simp, .nil⟩
+        · exact ⟨⟨X, [⟨[.group inner], .optSome⟩]⟩, by simp, rfl, ⟨[.group inner], .optSome⟩,
+            by simp, yieldE_group_intro ha' hw'⟩
+      · exact ⟨_, hp1, rfl, alt, by simp [ha], hu⟩
+    · intro q hq hne
+      simp only [List.mem_cons, List.not_mem_nil, or_false] at hq
+      rcases hq with rfl | rfl | rfl
+      · intro alt ha u hu
+        simp only [List.mem_append, List.mem_cons] at ha
+        have keep : ∀ alt : EAlt, alt ∈ apre ++ a :: apost →
+            YieldE (pre ++ ⟨plhs, apre ++ a :: apost⟩ :: post) (substAlt X [.opt inner] alt.fs) u →
+            Der (pre ++ ⟨plhs, apre ++ a :: apost⟩ :: post) plhs u := by
+          intro alt ha hu
+          rw [substAlt_fresh X _ alt.fs
+            (fun hx => hfresh (altVars_sub_variableNames hmem ha X hx))] at hu
+          exact ⟨_, hmem, rfl, alt, ha, hu⟩
+        rcases ha with ha | rfl | ha
+        · exact keep alt (by simp [ha]) hu
+        · simp only at hu
+          rw [hsub] at hu
+          exact ⟨_, hmem, rfl, a, by simp, hu⟩
+        · exact keep alt (by simp [ha]) hu
+      · exact absurd rfl hne
+      · exact absurd rfl hne
+    · intro q hq he
+      simp only [List.mem_cons, List.not_mem_nil, or_false] at hq
+      rcases hq with rfl | rfl | rfl
+      · exact absurd he (Ne.symm hXl)
+      · intro alt ha u hu
+        simp only [List.mem_singleton] at ha
+        subst ha
+        simp only [substAlt, Factor.subst, List.append_nil, substAlts_fresh X _ _ hXin] at hu
+        obtain ⟨alt', ha', hu'⟩ := yieldE_group_inv hu
+        exact yieldE_opt_some ha' hu'
+      · intro alt ha u hu
+        simp only [List.mem_singleton] at ha
+        subst ha
+        simp only [substAlt] at hu
+        have := yieldE_nil_inv hu
+        subst this
+        exact yieldE_opt_none
+    · exact not_mem_of_all hfresh hfs
+  · apply names_mono_mid
+    intro z hz
+    simp only [variableNames_cons, variableNames_nil, List.append_nil, EProd.vars, List.mem_cons,
+      List.mem_append, List.map_append, List.map_cons, altsVars_append, altsVars, altVars,
+      Factor.vars, List.map_nil, List.not_mem_nil, or_false] at hz ⊢
+    have := hn3 z
+    grind
+  · apply lhs_mid
+    intro q hq
+    simp only [List.mem_cons, List.not_mem_nil, or_false] at hq
+    rcases hq with rfl | rfl | rfl
+    · exact .inl rfl
+    · exact .inr hfresh
+    · exact .inr hfresh
+
 end ParolModel
